@@ -326,7 +326,10 @@ def cmake_trace_suite(seed, count, out, drv):
 
 
 # ---- C06: fault injection ----------------------------------------------------------------------------------------------
-FAULTS = ['"', '\\a', '\\', '(', ')', 'zz', '#[[ ', '#[=[ ', '\\9', ' " ', '\\Z']
+FAULTS = ['"', '\\a', '\\', '(', ')', 'zz', '#[[ ', '#[=[ ', '\\9', ' " ', '\\Z',
+          # a module doccomment where none may stand, alone and followed by stray text (an error handler that forgives the first must
+          # not swallow the second while it resynchronises)
+          '\n#[[[ @module m\n#]]\n', '\n#[[[ @module m\n#]]\n"stray")\n', '\n#[[[ @module m\n#]]\nstray text\n']
 
 
 def comment_spans(src, drv):
@@ -419,7 +422,7 @@ def fault_replay(v, drv):
     return dict(fails=fails, real=real, model=mo, lex=rl if 'err' in rl else 'ok')
 
 
-CLI_LAYOUTS = ['file', 'flat', 'flat-r', 'root-then-sub', 'sub-then-sub', 'last-sub', 'deep-first', 'two-bad']
+CLI_LAYOUTS = ['file', 'flat', 'flat-r', 'root-then-sub', 'sub-then-sub', 'last-sub', 'deep-first', 'two-bad', 'stale-page', 'stale-page-file', 'same-name-inputs']
 
 
 def cli_fault_case(text, layout):
@@ -429,7 +432,7 @@ def cli_fault_case(text, layout):
     with impl.Sandbox() as sb:
         inp = os.path.join(sb.dir, 'in'); os.makedirs(inp)
         files = {'a_good.cmake': good}
-        bad = ['bad.cmake']; rec = layout not in ('file', 'flat')
+        bad = ['bad.cmake']; rec = layout not in ('file', 'flat', 'stale-page', 'stale-page-file', 'same-name-inputs')
         if layout == 'root-then-sub': files.update({'bad.cmake': text, 'sub/ok.cmake': good})
         elif layout == 'sub-then-sub': files.update({'a_sub/bad.cmake': text, 'z_sub/ok.cmake': good}); bad = ['a_sub/bad.cmake']
         elif layout == 'last-sub': files.update({'a_sub/ok.cmake': good, 'z_sub/bad.cmake': text}); bad = ['z_sub/bad.cmake']
@@ -440,7 +443,22 @@ def cli_fault_case(text, layout):
             os.makedirs(os.path.dirname(os.path.join(inp, rel)), exist_ok=True)
             with open(os.path.join(inp, rel), 'w', newline='') as f: f.write(t)
         outd = os.path.join(sb.dir, 'out')
-        args = [os.path.join(inp, 'bad.cmake') if layout == 'file' else inp, '-o', outd] + (['-r'] if rec else [])
+        args = [os.path.join(inp, 'bad.cmake') if layout in ('file', 'stale-page-file') else inp, '-o', outd] + (['-r'] if rec else [])
+        stale = None
+        if layout in ('stale-page', 'stale-page-file'):
+            # the page of an earlier run is still there and is newer than the (restored, older) broken source
+            os.makedirs(outd); stale = 'STALE PAGE OF AN EARLIER RUN\n'
+            with open(os.path.join(outd, 'bad.rst'), 'w') as f: f.write(stale)
+            old_t = time.time() - 86400
+            os.utime(os.path.join(inp, 'bad.cmake'), (old_t, old_t))
+        if layout == 'same-name-inputs':
+            # two lone inputs with one base name: the page just written for the healthy one must not stand in for the broken one
+            os.makedirs(os.path.join(sb.dir, 'good')); os.makedirs(os.path.join(sb.dir, 'worse'))
+            with open(os.path.join(sb.dir, 'good', 'util.cmake'), 'w') as f: f.write(good)
+            with open(os.path.join(sb.dir, 'worse', 'util.cmake'), 'w', newline='') as f: f.write(text)
+            old_t = time.time() - 86400
+            os.utime(os.path.join(sb.dir, 'worse', 'util.cmake'), (old_t, old_t))
+            args = [os.path.join(sb.dir, 'good', 'util.cmake'), os.path.join(sb.dir, 'worse', 'util.cmake'), '-o', outd]; bad = []
         status = 0
         cfgdir = os.path.join(sb.dir, 'home'); os.makedirs(cfgdir)
         old_env = {k_: os.environ.get(k_) for k_ in ('HOME', 'XDG_CONFIG_HOME')}
@@ -458,7 +476,11 @@ def cli_fault_case(text, layout):
                 else: os.environ[k_] = v_
             import logging
             logging.disable(logging.NOTSET)
-        wrote = [b for b in bad if os.path.exists(os.path.join(outd, b[:-len('.cmake')] + '.rst'))]
+        def written(b):
+            pg = os.path.join(outd, b[:-len('.cmake')] + '.rst')
+            if not os.path.exists(pg): return False
+            return stale is None or open(pg).read() != stale
+        wrote = [b for b in bad if written(b)]
     return status, wrote
 
 
